@@ -737,6 +737,7 @@ class Ctx:
         self.notes = []
         # auxiliary (fresh, existentially quantified, total) relations are only given to the solver once a
         # constraint mentions their variable: cone-of-influence activation (sound: the relations are total)
+        self.margins = []  # strict versions of the comparisons decided on this path (used to ask for interior models)
         self.aux = {}  # fresh var name -> [constraints, tie term or None, active]
         self._walked = set()
 
@@ -828,7 +829,27 @@ class Ctx:
         if t < 2:
             self._activate(cond)
             self.solver.add(cond if d else z3.Not(cond))
+            self._margin(cond, d)
         return d
+
+    def _margin(self, cond, d):
+        """the strict version of a non-strict comparison that was decided: models that also satisfy these sit in the interior
+        of the path (no exposure == limit vertices), where IEEE floats and the exact-decimal model agree"""
+        try:
+            k = cond.decl().kind()
+            if cond.num_args() != 2:
+                return
+            a, b = cond.arg(0), cond.arg(1)
+            if k == z3.Z3_OP_LE:
+                self.margins.append(a < b if d else a > b)
+            elif k == z3.Z3_OP_GE:
+                self.margins.append(a > b if d else a < b)
+            elif k == z3.Z3_OP_LT and not d:
+                self.margins.append(a > b)
+            elif k == z3.Z3_OP_GT and not d:
+                self.margins.append(a < b)
+        except Exception:  # noqa
+            pass
 
     # --- arithmetic helpers with auxiliary variables ---
     def round(self, x, nd=None):
